@@ -43,8 +43,14 @@ BuildOutcome == IF "E" \in layers /\ nkeys = 0 THEN "EncryptionKeyIsMissing" ELS
 ReadOutcome(ks) == IF "E" \notin layers THEN "ok"
                    ELSE IF ks = "none" THEN "PrivateKeyNeeded"       \* ConfigError::PrivateKeyNotSet as seen through Error::from
                    ELSE IF ks = "wrong" THEN "PrivateKeyNotFound" ELSE "ok"
+\* identities of the recipients: the replay gives the i-th key added (over all add_public_keys calls) the identity i % 2;
+\* the header must wrap the archive key for every one of them, however many calls brought them
+Recips == { i % 2 : i \in 0..(nkeys - 1) }
+\* candidate "only(r)": the private key of recipient r alone
+ReadOutcomeOnly(r) == IF "E" \notin layers \/ r \in Recips THEN "ok" ELSE "PrivateKeyNotFound"
 \* ---- what the statement relies on
 EncryptedHasRecipient == (phase = "built" /\ BuildOutcome = "ok" /\ "E" \in layers) => nkeys >= 1
 LevelInRange == level \in 0..11
+EveryRecipientOpensAlone == \A r \in Recips : ReadOutcomeOnly(r) = "ok"
 OnlyRecipientsOpen == \A ks \in KeySets : ("E" \in layers /\ ReadOutcome(ks) = "ok") => ks \in {"right", "wrong_right"}
 =============================================================================
